@@ -126,7 +126,7 @@ func build(c *vlib.Ctx, shape string) *scen {
 			SiacoinInputs:  []types.SiacoinInput{{ParentID: e.ID, UnlockConditions: uc}},
 			SiacoinOutputs: []types.SiacoinOutput{{Value: cur(2000), Address: k.Addr("B")}, {Value: cur(2990), Address: k.Addr("A")}},
 			MinerFees:      []types.Currency{cur(10)},
-			ArbitraryData:  [][]byte{[]byte("arbitrary data of the payment")},
+			ArbitraryData:  [][]byte{[]byte("arbitrary data of the payment"), []byte("second entry")},
 		}
 		for i := range sigs {
 			sigs[i].ParentID = types.Hash256(e.ID)
@@ -142,6 +142,11 @@ func build(c *vlib.Ctx, shape string) *scen {
 		}
 		s.tamper["fee-shift"] = func() bool { t.SiacoinOutputs[0].Value, t.MinerFees[0] = cur(1999), cur(11); return true }
 		s.tamper["arb"] = func() bool { t.ArbitraryData[0][3] ^= 1; return true }
+		s.tamper["arb-shift"] = func() bool { // the last byte of entry 0 becomes the first byte of entry 1
+			a0, a1 := t.ArbitraryData[0], t.ArbitraryData[1]
+			t.ArbitraryData = [][]byte{append([]byte(nil), a0[:len(a0)-1]...), append([]byte{a0[len(a0)-1]}, a1...)}
+			return true
+		}
 		s.tamper["uncovered-out"] = func() bool { t.SiacoinOutputs[1].Address = addrC; return true }
 		s.tamper["second-out"] = func() bool { t.SiacoinOutputs[1].Address = addrC; return true }
 		s.tamper["sig-flip"] = func() bool { t.Signatures[0].Signature[9] ^= 4; return true }
@@ -642,9 +647,12 @@ func main() {
 
 	// authorisation defects inside simulated ledger behaviours
 	total := chain.RunStats{Tags: map[string]int{}}
-	for _, name := range []string{"v1only", "mixed", "v2only", "foundation"} {
+	for _, name := range []string{"v1only", "mixed", "v2only", "foundation", "devaddr"} {
 		cfg := chain.BaseConfig(chain.Shapes()[name])
 		cfg.Defects = []string{"auth"}
+		if name == "devaddr" {
+			cfg.Templates = []string{"pay", "sf"} // the developer-address override spends siafunds
+		}
 		st := chain.Run(c, cfg, chain.RunOpts{Num: c.Pick(120, 3000), Depth: 56, Timeout: 20 * time.Minute})
 		total.Behaviours += st.Behaviours
 		total.Steps += st.Steps
